@@ -24,7 +24,7 @@ else:
 try:
     r = subprocess.run(['git', '-C', wt, 'apply', "--exclude=*policies.yaml", d + '/patch.diff'], capture_output=True, text=True)
     if r.returncode != 0:
-        meta.update({'id': sid, 'breaks_property': prop, 'applies_to_head': False, 'detected': None,
+        meta.update({'id': sid, 'breaks_property': sid[:3], 'applies_to_head': False, 'detected': None,
                      'ran': 'patch.diff no longer applies to /repo HEAD %s: %s' % (head, r.stderr.strip().splitlines()[0] if r.stderr.strip() else '')})
         json.dump(meta, open(meta_path, 'w'), indent=1)
         print(sid, prop, 'PATCH DOES NOT APPLY')
@@ -40,7 +40,7 @@ out = p.stdout
 rules = sorted(set(re.findall(r'rule=(\S+) sig=(.+?) seed=', out)))
 summary = [l for l in out.splitlines() if l.startswith(prop + ' tier=')]
 meta.update({
-    'id': sid, 'breaks_property': meta.get('breaks_property', prop), 'applies_to_head': True,
+    'id': sid, 'breaks_property': meta.get('breaks_property', sid[:3]), 'applies_to_head': True,
     'detected': p.returncode == 1,
     'detected_by': prop,
     'check_exit': p.returncode,
